@@ -65,3 +65,35 @@ seed('c18-exact-has-solution', 'C18', [(PTC, "return pdef->hasExactSolution();",
 seed('c18-n-demorgan', 'C18', [(PTC, "return c1() || c2();", "return !(!c1() && !c2());")], None)
 seed('c18-n-postinc', 'C18', [(ITC, "    ++timesCalled_;\n\n    return (timesCalled_ > maxCalls_);", "    return (timesCalled_++ >= maxCalls_);")], None)
 seed('c18-n-solve-threshold', 'C18', [(PLN, "if (solveTime < 1.0)", "if (solveTime < 10.0)")], None)
+
+# ---- C12 -------------------------------------------------------------------------------------------------------
+PDF = 'src/ompl/datastructures/PDF.h'
+seed('c12-index-not-updated', 'C12', [(PDF, "                data_[index]->index_ = index;\n", "")], 'R12a')
+seed('c12-update-no-halving', 'C12', [(PDF, "                tree_[row][index] += weightChange;\n                index >>= 1;", "                tree_[row][index] += weightChange;")], 'R12b')
+seed('c12-empty-test-removed', 'C12', [(PDF, "            if (data_.empty())\n                throw Exception(\"Cannot sample from an empty PDF\");\n", "")], 'R12b')
+seed('c12-bound-guard-removed', 'C12', [(PDF, "if (r > tree_[row][node] && node + 1 < tree_[row].size())", "if (r > tree_[row][node])")], 'R12d')
+seed('c12-sibling-odd', 'C12', [(PDF, "index + 2 == data_.size() && index % 2 == 0", "index + 2 == data_.size() && index % 2 == 1")], 'R12c')
+seed('c12-leaf-swap-missing', 'C12', [(PDF, "                std::swap(tree_.front()[index], tree_.front().back());\n", "")], 'R12a')
+seed('c12-update-from-row0', 'C12', [(PDF, "for (std::size_t row = 1; row < tree_.size(); ++row)\n            {\n                tree_[row][index] += weightChange;", "for (std::size_t row = 0; row < tree_.size(); ++row)\n            {\n                tree_[row][index] += weightChange;")], 'R12b')
+seed('c12-delta-late', 'C12', [(PDF, "            const double weightChange = w - tree_.front()[index];\n            tree_.front()[index] = w;", "            tree_.front()[index] = w;\n            const double weightChange = w - tree_.front()[index];")], 'R12b')
+seed('c12-leafpop-missing', 'C12', [(PDF, "            data_.pop_back();\n            tree_.front().pop_back();", "            data_.pop_back();")], 'R12c')
+seed('c12-n-no-negative-check', 'C12', [(PDF, "            if (w < 0)\n                throw Exception(\"Weight argument must be a nonnegative value\");\n", "")], None)
+seed('c12-n-no-range-check', 'C12', [(PDF, "            if (r < 0 || r > 1)\n                throw Exception(\"Sampling value must be between 0 and 1\");\n", "")], None)
+seed('c12-n-guard-form', 'C12', [(PDF, "node + 1 < tree_[row].size()", "node + 2 <= tree_[row].size()")], None)
+
+# ---- C19 -------------------------------------------------------------------------------------------------------
+PD = 'src/ompl/base/src/ProblemDefinition.cpp'
+RN = 'src/ompl/util/src/RandomNumbers.cpp'
+PRRT = 'src/ompl/geometric/planners/rrt/src/pRRT.cpp'
+MVH = 'src/ompl/base/MotionValidator.h'
+GNAT = 'src/ompl/datastructures/NearestNeighborsGNAT.h'
+CON = 'src/ompl/util/src/Console.cpp'
+seed('c19-solset-nolock', 'C19', [(PD, "                std::lock_guard<std::mutex> slock(lock_);\n                int index = solutions_.size();", "                int index = solutions_.size();")], 'R19b')
+seed('c19-nextseed-nolock', 'C19', [(RN, "            std::lock_guard<std::mutex> slock(rngMutex_);\n            someSeedsGenerated_ = true;", "            someSeedsGenerated_ = true;")], 'R19b')
+seed('c19-prrt-add-unlocked', 'C19', [(PRRT, "            nnLock_.lock();\n            nn_->add(motion);\n            nnLock_.unlock();", "            nn_->add(motion);\n            nnLock_.lock();\n            nnLock_.unlock();")], 'R19d')
+seed('c19-counter-plain', 'C19', [(MVH, "mutable std::atomic<unsigned int> valid_;", "mutable unsigned int valid_;")], 'R19a')
+seed('c19-gnat-offset-plain', 'C19', [(GNAT, "mutable std::atomic<std::size_t> offset_{0};", "mutable std::size_t offset_{0};")], 'R19a')
+seed('c19-terminate-plain', 'C19', [(PTC, "mutable std::atomic<bool> terminate_;", "mutable bool terminate_;")], 'R19a')
+seed('c19-getoh-nolock', 'C19', [(CON, "    USE_DOH;\n    return doh->output_handler_;", "    return getDOH()->output_handler_;")], 'R19b')
+seed('c19-continue-locked', 'C19', [(PRRT, "        nnLock_.lock();\n        Motion *nmotion = nn_->nearest(rmotion);\n        nnLock_.unlock();", "        nnLock_.lock();\n        Motion *nmotion = nn_->nearest(rmotion);\n        if (nmotion == nullptr)\n            continue;\n        nnLock_.unlock();")], 'R19c')
+seed('c19-n-scoped-guard', 'C19', [(PRRT, "            nnLock_.lock();\n            nn_->add(motion);\n            nnLock_.unlock();", "            {\n                std::lock_guard<std::mutex> g(nnLock_);\n                nn_->add(motion);\n            }")], None)
